@@ -15,6 +15,9 @@ type GenOpts struct {
 	SingleLineText bool
 	// RichNames draws titles / annotations from the stress pool.
 	RichNames bool
+	// TopPasteAnywhere lets a top-level PASTE stand between later blocks (where
+	// the block before it cannot adopt it), not only right after JSIGHT.
+	TopPasteAnywhere bool
 }
 
 type genType struct {
@@ -665,10 +668,38 @@ func GenDoc(t *rapid.T, o GenOpts) *Doc {
 	}
 	// top-level PASTE of "top" macros goes right after JSIGHT (the one place
 	// where it is certainly a top-level directive)
+	var latePastes []*Dir
 	for _, m := range g.macros {
 		if m.target == "top" && m.pasted == 0 && g.chance(2, 3, "topPaste") {
-			doc.Top = append(doc.Top, g.paste(m))
+			if o.TopPasteAnywhere && g.chance(1, 2, "latePaste") {
+				latePastes = append(latePastes, g.paste(m))
+			} else {
+				doc.Top = append(doc.Top, g.paste(m))
+			}
 		}
+	}
+	for _, pd := range latePastes {
+		// positions where the previous block cannot adopt a PASTE
+		var pos []int
+		for i := 0; i <= len(blocks); i++ {
+			ok := true
+			if i > 0 {
+				prev := blocks[i-1]
+				switch {
+				case prev.Kw == "TYPE" || prev.Kw == "ENUM" || prev.Kw == "MACRO" || prev.Kw == "PASTE":
+				case prev.Kw == "TAG" && len(prev.Children) == 0:
+				default:
+					ok = false
+				}
+			}
+			if ok {
+				pos = append(pos, i)
+			}
+		}
+		i := pos[g.intn(len(pos), "latePastePos")]
+		nb := append([]*Dir{}, blocks[:i]...)
+		nb = append(nb, pd)
+		blocks = append(nb, blocks[i:]...)
 	}
 	for _, b := range blocks {
 		if b.Kw == "__unit__" {
